@@ -546,8 +546,19 @@ def r2_7(run):
                         if isinstance(q, ast.Subscript) and q.value is u:
                             continue    # masked read/write among values of the same unit
                         flows.append(q)
-                    ok = all(isinstance(q, ast.BinOp) and isinstance(q.op, ast.Div) and _num(q.right) == factor
-                             for q in flows) if kind == "div" else False
+                    def converted(q):
+                        if isinstance(q, ast.BinOp) and isinstance(q.op, ast.Div) and _num(q.right) == factor:
+                            return True
+                        if isinstance(q, ast.Return):
+                            # a helper that hands the column on in its own unit: every call of it carries the factor
+                            sites = [(g_, c_) for g_ in ix.all_functions() if g_.module.startswith("pandapipes.component_models")
+                                     for c_ in calls(g_.raw_node) if callee_name(c_) == mname]
+                            pars = {id(g_): parents(g_.raw_node) for g_, _c in sites}
+                            return bool(sites) and all(
+                                isinstance(pars[id(g_)].get(c_), ast.BinOp) and isinstance(pars[id(g_)][c_].op, ast.Div)
+                                and pars[id(g_)][c_].left is c_ and _num(pars[id(g_)][c_].right) == factor for g_, c_ in sites)
+                        return False
+                    ok = all(converted(q) for q in flows) if kind == "div" else False
                     how = "through local %s" % nm if flows else "local %s is only copied into arrays of the same unit" % nm
                 elif isinstance(p, ast.Compare) or (isinstance(p, ast.Call) and callee_name(p) in ("isnull", "isnan")):
                     n -= 1
